@@ -78,7 +78,7 @@ def mk_case(rng, shape, items, chain=None, fam=None):
 
 
 def generate(rng, tier):
-    n_random = 1200 if tier == "quick" else 25000
+    n_random = 1200 if tier == "quick" else 100000
     # exhaustive 1-D part
     for n in ([1, 2, 3] if tier == "quick" else [1, 2, 3, 4]):
         bounds = [None] + list(range(-n - 2, n + 3))
